@@ -42,7 +42,7 @@ use std::panic::{catch_unwind, AssertUnwindSafe};
 use std::str::FromStr;
 
 const FIXTURE: &str = "rbx_dom_lua/src/allValues.json";
-const ENTRIES: [&str; 9] = ["str", "slice", "reader", "value", "bincode", "bincode-reader", "msgpack", "msgpack-reader", "msgpack-named"];
+const ENTRIES: [&str; 10] = ["str", "slice", "reader", "value", "bincode", "bincode-reader", "msgpack", "msgpack-reader", "msgpack-named", "after-fault"];
 
 fn repo() -> String {
     std::env::var("VERIF_REPO").unwrap_or_else(|_| "/repo".to_string())
@@ -307,6 +307,28 @@ fn through(entry: &str, v: &Variant) -> Result<Variant, String> {
                 let b = rmp_serde::to_vec(v).map_err(|e| format!("encode: {e}"))?;
                 rmp_serde::from_slice::<Variant>(&b).map_err(|e| format!("decode: {e}"))
             }
+            // the encodings are functions of the value: an attempt that FAILED (the sink gives out after 0, half and all but one
+            // of the bytes, through each of the three serializers) must leave nothing behind on this thread that changes what
+            // the next attempt writes
+            "after-fault" => {
+                let good = serde_json::to_vec(v).map_err(|e| format!("encode: {e}"))?;
+                let goodb = bincode::serialize(v).map_err(|e| format!("encode: {e}"))?;
+                let goodm = rmp_serde::to_vec(v).map_err(|e| format!("encode: {e}"))?;
+                for lim in [0, good.len() / 2, good.len().saturating_sub(1)] {
+                    let _ = serde_json::to_writer(FailingSink { left: lim }, v);
+                    let _ = bincode::serialize_into(FailingSink { left: lim.min(goodb.len().saturating_sub(1)) }, v);
+                    let _ = rmp_serde::encode::write(&mut FailingSink { left: lim.min(goodm.len().saturating_sub(1)) }, v);
+                }
+                let again = serde_json::to_vec(v).map_err(|e| format!("encode: {e}"))?;
+                if again != good {
+                    return Err(format!("encode: after failed attempts on this thread the same value is written differently ({} bytes, before {})", again.len(), good.len()));
+                }
+                if bincode::serialize(v).map_err(|e| format!("encode: {e}"))? != goodb || rmp_serde::to_vec(v).map_err(|e| format!("encode: {e}"))? != goodm {
+                    return Err("encode: after failed attempts on this thread the compact encoding of the same value differs".to_string());
+                }
+                // decoding is the business of the other entry points
+                Ok(v.clone())
+            }
             "msgpack-named" => {
                 let b = rmp_serde::to_vec_named(v).map_err(|e| format!("encode: {e}"))?;
                 rmp_serde::from_slice::<Variant>(&b).map_err(|e| format!("decode: {e}"))
@@ -324,7 +346,25 @@ fn through(entry: &str, v: &Variant) -> Result<Variant, String> {
 }
 
 fn is_json(entry: &str) -> bool {
-    matches!(entry, "str" | "slice" | "reader" | "value")
+    matches!(entry, "str" | "slice" | "reader" | "value" | "after-fault")
+}
+
+/// an io::Write that accepts `left` bytes and then fails
+struct FailingSink {
+    left: usize,
+}
+impl std::io::Write for FailingSink {
+    fn write(&mut self, buf: &[u8]) -> std::io::Result<usize> {
+        if self.left == 0 {
+            return Err(std::io::Error::new(std::io::ErrorKind::Other, "sink full"));
+        }
+        let n = buf.len().min(self.left);
+        self.left -= n;
+        Ok(n)
+    }
+    fn flush(&mut self) -> std::io::Result<()> {
+        Ok(())
+    }
 }
 
 /// None if the value survives the entry point; otherwise (keys, message).  A failing `Attributes` is attributed
